@@ -360,6 +360,7 @@ func runSeq(c Case) (vkit.Info, error) {
 		}
 	}
 	armed := 0
+	excludedLeftover := false
 	for step, d := range c.Dels {
 		switch d.K {
 		case "fail":
@@ -676,6 +677,15 @@ func runSeq(c Case) (vkit.Info, error) {
 				delete(lag, k)
 				if _, pending := B[k]; pending {
 					cls.add("rs-displaced-while-unflushed")
+					if vkit.Known(keyBatchLeftover) {
+						// known finding: the buffered save survives the delete and the next flush writes it back
+						if !excludedLeftover {
+							excludedLeftover = true
+							info.Exclude(keyBatchLeftover)
+						}
+					} else {
+						delete(B, k) // displaced regions disappear from storage: the buffered save goes as well
+					}
 				}
 				continue
 			}
